@@ -191,6 +191,11 @@ func (h Header) WriteSubset(w io.Writer, exclude map[string]bool) error {
 	}
 	kvs, sorter := h.sortedKeyValues(exclude)
 	for _, kv := range kvs {
+		if !validToken(kv.key) {
+			// A field name that is not a token (RFC 7230 3.2.6) would change
+			// the structure of the message: never write it.
+			continue
+		}
 		for _, v := range kv.values {
 			v = headerNewlineToSpace.Replace(v)
 			v = textproto.TrimString(v)
@@ -217,7 +222,7 @@ func (h Header) writeSubsetWithoutSort(w io.Writer, exclude map[string]bool) err
 	}
 
 	for k, vv := range h {
-		if exclude[k] {
+		if exclude[k] || !validToken(k) {
 			continue
 		}
 
